@@ -481,6 +481,13 @@ theorem runCmds_append (free : String → Option V) (r : Regs V) (a b : List (Cm
       | ok v =>
         simp only [ih]
         cases (runCmds free r rest).fin <;> simp
+    | useArr es =>
+      simp only [List.cons_append, runCmds]
+      cases he : es.mapM (eval ⟨free, r⟩) with
+      | error err => simp
+      | ok vs =>
+        simp only [ih]
+        cases (runCmds free r rest).fin <;> simp
 
 /-- the register after an error-free run holds, for every subsystem, its most recent outcome (or
 what it held before, when the subsystem was not measured) -/
@@ -511,6 +518,15 @@ theorem runCmds_fin (free : String → Option V) (r r' : Regs V) (cs : List (Cmd
       cases he : eval ⟨free, r⟩ e with
       | error err => simp [he] at h
       | ok v =>
+        simp only [he] at h
+        rw [ih _ h]
+        simp only [lastOutcome]
+        cases lastOutcome m rest <;> rfl
+    | useArr es =>
+      simp only [runCmds] at h
+      cases he : es.mapM (eval ⟨free, r⟩) with
+      | error err => simp [he] at h
+      | ok vs =>
         simp only [he] at h
         rw [ih _ h]
         simp only [lastOutcome]
